@@ -27,6 +27,7 @@ from holopy.core.errors import raise_fitting_api_error
 from holopy.scattering.errors import (MultisphereFailure, TmatrixFailure,
                                       InvalidScatterer, MissingParameter)
 from holopy.scattering.interface import calc_holo, interpret_theory
+from holopy.scattering.scatterer import RigidCluster
 from holopy.inference import prior
 from holopy.core.mapping import Mapper, read_map, edit_map_indices
 
@@ -203,7 +204,13 @@ class Model(HoloPyObject):
                 dummy_parameters[key] = [0 for _ in value]
             else:
                 dummy_parameters[key] = 0
-        return scatterer.from_parameters(dummy_parameters)
+        dummy_scatterer = scatterer.from_parameters(dummy_parameters)
+        if isinstance(scatterer, RigidCluster):
+            # RigidCluster.from_parameters returns the moved Spheres, which
+            # would ignore the fitted rotation and translation; keep a
+            # RigidCluster as the template so they are applied
+            dummy_scatterer = RigidCluster(dummy_scatterer)
+        return dummy_scatterer
 
     def ensure_parameters_are_listlike(self, pars):
         if isinstance(pars, dict):
